@@ -2,6 +2,7 @@ package main
 
 import (
 	"fmt"
+	"strings"
 	"path/filepath"
 
 	"verif/layera"
@@ -18,14 +19,16 @@ func kernelsC13(thorough bool) ([]string, []layera.Kernel) {
 		maxPaths = 3
 	}
 	stub := []string{"github.com/jmattheis/goverter/method.Parse", "(*github.com/jmattheis/goverter/pkgload.PackageLoader).GetOne", "(*github.com/jmattheis/goverter/pkgload.PackageLoader).GetMatching"}
-	return []string{"xtype", "builder", "pkgload", "config", "enum"}, []layera.Kernel{
+	return []string{"xtype", "builder", "pkgload", "config", "enum", "namer"}, []layera.Kernel{
 		{Name: "K9.typecode", Pkg: "xtype", Harness: "VerifHarness_C13_TypeCode", Unwind: 16},
+		{Name: "K9.recursivetypes", Pkg: "xtype", Harness: "VerifHarness_C13_RecursiveTypes", Unwind: 64, MaxDepth: 200, LoopsBounded: true},
 		{Name: "K9.enumlookup", Pkg: "xtype", Harness: "VerifHarness_C13_EnumLookup", Unwind: 16},
 		{Name: "K5.structassign", Pkg: "builder", Harness: "VerifHarness_C05_StructAssign", Unwind: 32, MaxPaths: 3000000, Workers: 16},
 		{Name: "K9.tostring", Pkg: "builder", Harness: "VerifHarness_C13_ErrorToString", Unwind: 24, MaxPaths: 600000, SetInts: map[string]int{"VerifC13MaxPaths": maxPaths}},
 		{Name: "K9.methodstring", Pkg: "pkgload", Harness: "VerifHarness_C13_ParseMethodString", Unwind: 24},
 		{Name: "K9.methodmap", Pkg: "config", Harness: "VerifHarness_C13_ParseMethodMap", Unwind: 24, Stub: stub},
 		{Name: "K9.settinglines", Pkg: "config", Harness: "VerifHarness_C13_SettingLines", Unwind: 64, Stub: stub},
+		{Name: "K9.namerloops", Pkg: "namer", Harness: "VerifHarness_C13_NamerLoops", Unwind: 200, LoopsBounded: true},
 		{Name: "K9.transformregex", Pkg: "enum", Harness: "VerifHarness_C13_TransformRegex", Unwind: 24},
 	}
 }
@@ -36,8 +39,8 @@ func runC13(opt *Options) int {
 		Opt:     opt,
 		Pkgs:    pkgs,
 		Kernels: ks,
-		Funcs:   []string{"xtype.TypeOf", "xtype.applyTo", "xtype.toCode", "xtype.toCodeBasic", "xtype.toCodeNamed", "xtype.toCodeObj", "xtype.toCodeStruct", "xtype.toCodeInterface", "xtype.toCodeSignature", "xtype.toChan", "xtype.ZeroValue", "xtype.(*Type).ID", "xtype.(*Type).Enum", "xtype.loadEnum", "enum.Detect"},
-		Bounds:  "all eleven outer type constructors (every basic kind incl. uintptr and unsafe.Pointer, the universe type error), named or unnamed, inner positions basic; go/types runs natively",
+		Funcs:   []string{"xtype.TypeOf", "xtype.applyTo", "xtype.toCode", "xtype.toCodeBasic", "xtype.toCodeNamed", "xtype.toCodeObj", "xtype.toCodeStruct", "xtype.toCodeInterface", "xtype.toCodeSignature", "xtype.toChan", "xtype.ZeroValue", "xtype.(*Type).ID", "xtype.(*Type).Enum", "xtype.loadEnum", "enum.Detect", "namer.(*Namer).Index/Map/Name/Register (termination: <= 59 index, 5 map and 5 plain names per method)"},
+		Bounds:  "self-referencing and mutually recursive named types over six constructors; all eleven outer type constructors (every basic kind incl. uintptr and unsafe.Pointer, the universe type error), named or unnamed, inner positions basic; go/types runs natively",
 		Assume: []string{
 			"jennifer (jen.*) is an opaque library: fresh results, no panics",
 			"panic freedom is decided per kernel within its bounds; termination of the whole pipeline, stack depth, go/packages failures are outside (process level)",
@@ -53,7 +56,7 @@ func runC13(opt *Options) int {
 	convs = append(convs, layerb.FamilyDefault(false)...)
 	convs = append(convs, layerb.FamilySibling(false)...)
 	for i, c := range layerb.FamilyShape(false, opt.Seed) {
-		if i%4 == 0 {
+		if i%4 == 0 || strings.Contains(c.ID, "shape/rec_") {
 			convs = append(convs, c)
 		}
 	}
